@@ -2,7 +2,10 @@
    Only statements, each closed by [exact] of a lemma proved in Proofs/, and Print Assumptions.
    [repaired] is the model of datatype/neuronjson with repo_patches/C16-{1..9}-fix.diff applied,
    [interim] with only the first six, [shipped] with none (Model/NJ.v, record [variant]). *)
-From DV Require Import Base.Prelude Model.NJ Proofs.NJBase Proofs.NJ Proofs.NJUpdate.
+From Coq Require Import Permutation.
+From DV Require Import Base.Prelude Model.NJ Model.NJOrd Proofs.NJBase Proofs.NJ Proofs.NJUpdate Proofs.NJOrd.
+(* POST query is read-only (C16_query_is_readonly, C16_queries_erasable): its own file, cited by C02 *)
+From DV Require Export Props.C16_readonly.
 Local Open Scope N_scope.
 
 (* For EVERY history of POST key / POST keyvalues (plain, replace, conditional fields; accepted or
@@ -92,6 +95,47 @@ Theorem C16_stamps_change_iff_value_changes : forall user conds replace t (o new
        else oget (fuser f) new' = oget (fuser f) o /\ oget (ftime f) new' = oget (ftime f) o.
 Proof. exact stamps_rule. Qed.
 Print Assumptions C16_stamps_change_iff_value_changes.
+
+(* Go map iteration order is immaterial in updateJSON.  [updateJSON_ord sg] (Model/NJOrd.v) ranges
+   every map of updateJSON in the order [sg] dictates, loop by loop: the null loop visits the keys
+   of newData in ANY sequence that contains them all — it may also visit the <field>_user /
+   <field>_time entries the loop itself creates, any number of times, and each visit reads the
+   entry as it is at that moment (read while written); the loops that build newlySet / newFields,
+   carry the stored fields forward, add the stamps and keep the stamps (replace) visit ANY
+   permutation of their map.  For EVERY such order, every way of writing the posted fields and the
+   stored annotation down as association lists (Permutation, distinct keys), every user,
+   conditionals, replace flag and time: the resulting annotation — and the stored annotation after
+   its in-place deletions — is, as a finite map field -> value (stamps included), the one
+   Model.NJ.updateJSON computes in list order.  (Model.NJ.updateJSON is the instance [ord_id].) *)
+Theorem C16_update_order_irrelevant :
+  forall (user : bytes) (conds : list bytes) (replace : bool) (t : bytes)
+         (sg : orders) (orig orig' : option obj) (new0 new0' : obj),
+  fair sg -> same_map new0 new0' -> same_map_opt orig orig' ->
+  oeq (snd (updateJSON_ord user conds replace t sg orig' new0')) (snd (updateJSON user conds replace t orig new0))
+  /\ oeq_opt (fst (updateJSON_ord user conds replace t sg orig' new0')) (fst (updateJSON user conds replace t orig new0)).
+Proof. exact updateJSON_order_irrelevant. Qed.
+Print Assumptions C16_update_order_irrelevant.
+
+(* in the words of the property: for every permutation of the posted fields, under any two fair
+   orders, every field reads the same in the two results *)
+Theorem C16_update_permutation_invariant :
+  forall (user : bytes) (conds : list bytes) (replace : bool) (t : bytes)
+         (sg sg' : orders) (orig : option obj) (l l' : obj) (f : bytes),
+  fair sg -> fair sg' -> NoDup (dom l) -> Permutation l l' -> same_map_opt orig orig ->
+  oget f (snd (updateJSON_ord user conds replace t sg orig l)) = oget f (snd (updateJSON_ord user conds replace t sg' orig l')).
+Proof. exact update_permutation_invariant. Qed.
+Print Assumptions C16_update_permutation_invariant.
+
+(* non-vacuity: the four orders the driver's cases are evaluated under are fair; a request and a
+   stored annotation written in reverse and ranged with revisits give another association list,
+   which is the same map (a null with an explicit stamp: c_user = "z" survives) *)
+Example C16_orders_inhabited :
+  fair ord_id /\ fair ord_rev /\ fair ord_rot /\ fair ord_revisit
+  /\ same_map ex_new (rev ex_new) /\ same_map_opt (Some ex_o) (Some (rev ex_o))
+  /\ snd (updateJSON_ord [117;50] [[]] false [49] ord_revisit (Some (rev ex_o)) (rev ex_new))
+     <> snd (updateJSON [117;50] [[]] false [49] (Some ex_o) ex_new)
+  /\ oget (fuser [99]) (snd (updateJSON [117;50] [[]] false [49] (Some ex_o) ex_new)) = Some (JStr [122]).
+Proof. exact order_example. Qed.
 
 (* "the value changed" is decided by json_eqb, which is equality of JSON values *)
 Theorem C16_value_equality : forall a b : json, json_eqb a b = true <-> a = b.
